@@ -145,6 +145,14 @@ func (ds *dataStore) leaveListBlock(ws *wakeSignal) {
 	ds.waitingClients.disposeWakeSignal(ws)
 }
 
+// hands the wake-up a client received (and did not use) to the next client
+// waiting for the same object
+func (ds *dataStore) passWakeUp(ws *wakeSignal) {
+	ds.mu.Lock()
+	defer ds.mu.Unlock()
+	ds.waitingClients.unblock(ws.raisedBy, 1)
+}
+
 func (ds *dataStore) unblockListUnlocked(keyName string, elements int) {
 	ds.waitingClients.unblock(keyName, elements)
 }
